@@ -71,6 +71,15 @@ def cases(tier, rng):
                     if rng.chance(2, 3):
                         d[i] = 0
             cs.append(mk("enc", code, bytes(d), "random"))
+    # several values on one codec instance, results kept while later calls run (implementation only: the model is a function of its input)
+    for code in CODECS:
+        if code == 89:
+            continue          # Base192 does not round-trip at all (known finding)
+        for _ in range(60 if thorough else 8):
+            k = rng.range(2, 6)
+            vals = [rng.bytes(rng.choice([1, 3, 8, 20, 57, 100])) for _ in range(k)]
+            line = "encseq %d %s" % (code, " ".join(hx(v) for v in vals))
+            cs.append({"line": line, "key": ("encseq", code, k, len(vals[0])), "model": False, "tags": {"op": "encseq", "codec": code, "len": sum(map(len, vals)), "fill": "seq"}})
     # decoder-side (malformed) stream
     alph = {
         84: b"abcdefghijklmnopqrstuvwxyz012345", 83: b"abcdefghijklmnopqrstuvwxyzABCDEFGHIJKLMNOPQRSTUVWXYZ-0123456789+",
@@ -105,6 +114,11 @@ def oracle(case, impl):
         return [("panic=" + (parts[1] if len(parts) > 1 else "?"), "codec operation crashed: " + impl[:200])]
     if parts and parts[0] == "harness-error":
         return [("harness-error", impl[:200])]
+    if op == "encseq":
+        if parts[0] != "keep" or any(x != "1" for x in parts[1:]):
+            return [("codec=%s;kind=result-overwritten" % CODECS.get(int(case["line"].split()[1]), "?"),
+                     "an encoding (or decoding) handed out earlier no longer represents its input after later calls on the same codec: %s -> %s" % (case["line"][:200], impl))]
+        return []
     if op == "enc":
         ls = case["line"].split()
         code = int(ls[1])
